@@ -368,3 +368,68 @@ def case_feasible(atoms, env, strict=False):
         if v is None:
             unknown = True
     return None if (strict and unknown) else True
+
+
+# ---------------------------------------------------------------------------------------------------------------
+# element-wise iteration, whatever its spelling: `for x in it`, `it.for_each(|x| ..)`; `collect` / push loops
+# ---------------------------------------------------------------------------------------------------------------
+ELEM_ADAPTORS = ('copied', 'cloned', 'iter', 'into_iter', 'iter_mut', 'deref', 'deref_mut', 'as_slice', 'as_mut_slice', 'by_ref', 'as_ref',
+                 'borrow', 'to_vec', 'clone', 'into_values')
+
+
+def strip_iter(t):
+    """the collection (or base iterator, e.g. map.values()) an element-preserving adaptor chain runs over"""
+    while isinstance(t, tuple) and t and t[0] == 'call' and t[1].split('::')[-1] in ELEM_ADAPTORS and t[2]:
+        t = t[2][0]
+    return t
+
+
+def iterations(ctx, body):
+    """every element-wise iteration written in `body`: dicts with
+       src   — the stripped collection / base iterator term (in `body`)
+       where — the body holding the per-element code (`body` itself for a `for` loop, the closure for `for_each`)
+       is_item(term) — is `term` (seen in `where`) the current element
+       starts / ends — points of `where`: first points of one iteration / points where the iteration is over (next element, return)"""
+    out = []
+    for (bb, t) in body.calls_to('Iterator::next'):
+        p = body.term_point(bb)
+        call = body.origin.call(t, p)
+        item = M.simplify_field(M.simplify_variant(call, 'Some'), '0', None)
+        starts = [(tb, 0) for bbk in body.live_blocks() if body.term(bbk)['k'] == 'switch' for (tb, lab) in body.succ(bbk)
+                  if (lambda lit: lit and lit[0] == 'in' and lit[1] == call and lit[2] == frozenset(['Some']))(M.edge_literal(body, bbk, lab))]
+        out.append({'kind': 'for', 'src': strip_iter(body.origin.operand(t['args'][0], p)), 'where': body, 'item': item,
+                    'is_item': (lambda x, item=item: x == item), 'starts': starts, 'ends': [p] + ret_points(body), 'at': p})
+    for (bb, t) in body.calls_to('for_each'):
+        p = body.term_point(bb)
+        a = [body.origin.operand(x, p) for x in t['args']]
+        if len(a) == 2 and isinstance(a[1], tuple) and a[1] and a[1][0] == 'closure' and a[1][1] in ctx.F.bodies:
+            c = ctx.F.bodies[a[1][1]]
+            out.append({'kind': 'for_each', 'src': strip_iter(a[0]), 'where': c, 'item': ('param', c.name, 1, None),
+                        'is_item': (lambda x, c=c: M.is_param(x, index=1) and x[1] == c.name), 'starts': [(0, 0)], 'ends': ret_points(c), 'at': p})
+    return out
+
+
+def every_iteration_does(it, points):
+    """no iteration of `it` gets from its first point to its end without passing one of `points` (points of it['where'])"""
+    w = it['where']
+    if not it['starts'] or not points:
+        return False
+    r = w.reach(it['starts'], avoid=list(points))
+    return not any(e in r for e in it['ends'])
+
+
+def collects_all(ctx, body, vec, src_pred, its=None):
+    """`vec` (a term of `body`) holds exactly the elements of a collection selected by src_pred: `src.collect()` / `.to_vec()` (element-
+    preserving adaptors only), or a vector that receives `push(item)` in every iteration of a loop over it"""
+    v = vec
+    if isinstance(v, tuple) and v and v[0] == 'call' and v[1].split('::')[-1] in ('collect', 'from_iter', 'to_vec') and v[2] and src_pred(strip_iter(v[2][0])):
+        return True
+    for it in (its if its is not None else iterations(ctx, body)):
+        if not src_pred(it['src']):
+            continue
+        w = it['where']
+        ps = [w.term_point(bb) for (bb, t) in w.calls_to('push')
+              if w.origin.operand(t['args'][0], w.term_point(bb)) == vec and it['is_item'](w.origin.operand(t['args'][1], w.term_point(bb)))]
+        if every_iteration_does(it, ps):
+            return True
+    return False
